@@ -174,7 +174,7 @@ fn make_subframe(ch: &Choices, rng: &mut Xoshiro, target: &[i64], bits: u32) -> 
     let stored: Vec<i64> = target.iter().map(|v| v >> w).collect();
     let constant = stored.iter().all(|v| *v == stored[0]);
     let kind = ch.draw("syn.kind", 8);
-    let mk = |body: SubSpec| SubframeSpec { bits, wasted: w, body };
+    let mk = |body: SubSpec| SubframeSpec { bits, wasted: w, body, bend: Default::default() };
     if constant && kind < 3 {
         probe("syn_constant");
         if w > 0 {
@@ -288,6 +288,89 @@ fn gen_target(ch: &Choices, rng: &mut Xoshiro, n: usize, bps: u32) -> Vec<i64> {
     v
 }
 
+pub struct Made {
+    pub spec: FrameSpec,
+    /// target PCM per channel (after undoing decorrelation)
+    pub chans: Vec<Vec<i64>>,
+    /// the same frame as the crate's structure (None if its types cannot express it)
+    pub crate_frame: Option<Frame>,
+}
+
+/// one valid frame of `n` samples per channel; None if this draw cannot express its target
+pub fn make_frame(ch: &Choices, rng: &mut Xoshiro, bps: u32, bps_code: u8, assign: u64, channels: usize, n: usize, number: u64) -> Option<Made> {
+    let chans: Vec<Vec<i64>> = (0..channels).map(|_| gen_target(ch, rng, n, bps)).collect();
+    let (code, ca, stored, sbits): (u8, ChannelAssignment, Vec<Vec<i64>>, Vec<u32>) = match assign {
+        1 => (
+            8,
+            ChannelAssignment::LeftSide,
+            vec![chans[0].clone(), chans[0].iter().zip(&chans[1]).map(|(l, r)| l - r).collect()],
+            vec![bps, bps + 1],
+        ),
+        2 => (
+            9,
+            ChannelAssignment::SideRight,
+            vec![chans[0].iter().zip(&chans[1]).map(|(l, r)| l - r).collect(), chans[1].clone()],
+            vec![bps + 1, bps],
+        ),
+        3 => (
+            10,
+            ChannelAssignment::MidSide,
+            vec![
+                chans[0].iter().zip(&chans[1]).map(|(l, r)| (l + r) >> 1).collect(),
+                chans[0].iter().zip(&chans[1]).map(|(l, r)| l - r).collect(),
+            ],
+            vec![bps, bps + 1],
+        ),
+        _ => (
+            channels as u8 - 1,
+            ChannelAssignment::Independent(channels.try_into().map_err(|_| ()).unwrap()),
+            chans.clone(),
+            vec![bps; channels],
+        ),
+    };
+    let mut specs = Vec::new();
+    for (s, b) in stored.iter().zip(&sbits) {
+        let mut sf = None;
+        for _attempt in 0..4 {
+            sf = make_subframe(ch, rng, s, *b);
+            if sf.is_some() {
+                break;
+            }
+        }
+        let sf = sf?;
+        if *b == 33 {
+            probe("syn_33bit_side_channel");
+        }
+        if sf.wasted > 0 && *b == bps + 1 {
+            probe("syn_wasted_bits_on_side_channel");
+        }
+        specs.push(sf);
+    }
+    let spec = FrameSpec {
+        block_size: n as u32,
+        rate_code: 9, // 44100 Hz
+        assignment: code,
+        bps_code,
+        number,
+        subs: specs.clone(),
+        bend: Default::default(),
+    };
+    // the same frame as the crate's structure
+    let subframes: Option<Vec<SubframeWidth>> = specs.iter().map(|s| to_crate(s, n)).collect();
+    let crate_frame = subframes.map(|subframes| Frame {
+        header: FrameHeader {
+            blocking_strategy: false,
+            block_size: (n as u16).try_into().unwrap(),
+            sample_rate: 44100u32.try_into().unwrap(),
+            channel_assignment: ca,
+            bits_per_sample: BitsPerSample::from(SignedBitCount::<32>::try_from(bps).unwrap()),
+            frame_number: FrameNumber(number),
+        },
+        subframes,
+    });
+    Some(Made { spec, chans, crate_frame })
+}
+
 pub fn run(ctx: &mut Ctx) -> R {
     let ch = ctx.ch.clone();
     let mut rng = Xoshiro::new(ch.raw("syn.seed"));
@@ -310,82 +393,16 @@ pub fn run(ctx: &mut Ctx) -> R {
             2 => *ch.pick("syn.n.common", &[192usize, 256, 64, 32, 128]),
             _ => 17 + ch.draw("syn.n.any", 80) as usize,
         };
-        let chans: Vec<Vec<i64>> = (0..channels).map(|_| gen_target(&ch, &mut rng, n, bps)).collect();
-        let (code, ca, stored, sbits): (u8, ChannelAssignment, Vec<Vec<i64>>, Vec<u32>) = match assign {
-            1 => (
-                8,
-                ChannelAssignment::LeftSide,
-                vec![chans[0].clone(), chans[0].iter().zip(&chans[1]).map(|(l, r)| l - r).collect()],
-                vec![bps, bps + 1],
-            ),
-            2 => (
-                9,
-                ChannelAssignment::SideRight,
-                vec![chans[0].iter().zip(&chans[1]).map(|(l, r)| l - r).collect(), chans[1].clone()],
-                vec![bps + 1, bps],
-            ),
-            3 => (
-                10,
-                ChannelAssignment::MidSide,
-                vec![
-                    chans[0].iter().zip(&chans[1]).map(|(l, r)| (l + r) >> 1).collect(),
-                    chans[0].iter().zip(&chans[1]).map(|(l, r)| l - r).collect(),
-                ],
-                vec![bps, bps + 1],
-            ),
-            _ => (
-                channels as u8 - 1,
-                ChannelAssignment::Independent(channels.try_into().map_err(|_| ()).unwrap()),
-                chans.clone(),
-                vec![bps; channels],
-            ),
-        };
-        let mut specs = Vec::new();
-        for (s, b) in stored.iter().zip(&sbits) {
-            let mut sf = None;
-            for _attempt in 0..4 {
-                sf = make_subframe(&ch, &mut rng, s, *b);
-                if sf.is_some() {
-                    break;
-                }
-            }
-            let Some(sf) = sf else {
-                ctx.eval(0, false);
-                return Ok(()); // this draw cannot express the target; not a finding
-            };
-            if *b == 33 {
-                probe("syn_33bit_side_channel");
-            }
-            if sf.wasted > 0 && *b == bps + 1 {
-                probe("syn_wasted_bits_on_side_channel");
-            }
-            specs.push(sf);
-        }
         let number = if ch.draw("syn.bigno", 6) == 5 { 100_000 + k as u64 } else { k as u64 };
-        let spec = FrameSpec {
-            block_size: n as u32,
-            rate_code: 9, // 44100 Hz
-            assignment: code,
-            bps_code,
-            number,
-            subs: specs.clone(),
+        let Some(m) = make_frame(&ch, &mut rng, bps, bps_code, assign, channels, n, number) else {
+            ctx.eval(0, false);
+            return Ok(()); // this draw cannot express the target; not a finding
         };
         let start = bytes.len();
-        bytes.extend_from_slice(&refflac::write_frame(&spec));
+        bytes.extend_from_slice(&refflac::write_frame(&m.spec));
         bounds.push((start, bytes.len()));
-        // the same frame as the crate's structure
-        let subframes: Option<Vec<SubframeWidth>> = specs.iter().map(|s| to_crate(s, n)).collect();
-        frames.push(subframes.map(|subframes| Frame {
-            header: FrameHeader {
-                blocking_strategy: false,
-                block_size: (n as u16).try_into().unwrap(),
-                sample_rate: 44100u32.try_into().unwrap(),
-                channel_assignment: ca,
-                bits_per_sample: BitsPerSample::from(SignedBitCount::<32>::try_from(bps).unwrap()),
-                frame_number: FrameNumber(number),
-            },
-            subframes,
-        }));
+        frames.push(m.crate_frame);
+        let chans = m.chans;
         let mut inter = Vec::with_capacity(n * channels);
         for i in 0..n {
             for c in &chans {
